@@ -419,6 +419,10 @@ func runC16In(p c16In, c *stats.Case) error {
 			case "fewer":
 				if len(g.contents) > 1 {
 					_, _ = conn.Write(ctx, portalwire.VerifEncodeContents(g.contents[1:]))
+				} else {
+					// one accepted item: "wrong count" has to be one more (a connection closed without any data would
+					// keep the receiver reading until its 60 s read time-out, which is the dial-silent outcome)
+					_, _ = conn.Write(ctx, portalwire.VerifEncodeContents(append(append([][]byte{}, g.contents...), []byte("surplus"))))
 				}
 			case "garbage":
 				_, _ = conn.Write(ctx, []byte{0xff, 0xff, 0xff, 0xff, 0xff, 0x01})
